@@ -171,7 +171,7 @@ class GoldenCanon(NgapCanon):
     def generate(self, rng, tier):
         search = getattr(self, "search", False)
         cases, self.skipped = A.golden_cases(self.S, rng, 12 if search else 1 if tier == "quick" else 4,
-                                             40 if search else 2 if tier == "quick" else 8)
+                                             40 if search else 2 if tier == "quick" else 8, search=search)
         for c in cases: c["hex"] = c["expect"]
         return cases
 
